@@ -71,7 +71,9 @@ def build(model, ranks=None, plain=False, default_resource_ids=False, share_id_o
         # dependency kinds as enum members, or as the plain integers the saved format holds
         kind_ = int(kind) if model.get("int_kinds") else TD(kind)
         if model.get("extend_links"):
-            tasks[si].extend_input_task_list([tasks[pi]], kind_)
+            # (a list, or any other iterable of tasks: a generator can be walked only once)
+            arg_ = (t_ for t_ in [tasks[pi]]) if (model.get("extend_iter") and (pi + si) % 2 == 0) else [tasks[pi]]
+            tasks[si].extend_input_task_list(arg_, kind_)
         else:
             tasks[si].append_input_task(tasks[pi], task_dependency_mode=kind_)
     ext = []
